@@ -202,6 +202,7 @@ func (s *Scratch) CopyRepo(excludes ...string) error {
 	if out, err := cmd.CombinedOutput(); err != nil {
 		return Toolf("rsync: %v: %s", err, out)
 	}
+	fmt.Printf("scratch copy of %s taken\n", Repo)
 	return nil
 }
 
